@@ -156,9 +156,28 @@ func honestRounds(t *chaingen.Tree, ts *terms, log []netsim.Call, bpr int) []str
 }
 
 func project(s Scen, t *chaingen.Tree, ts *terms, atk *attack, v0 *chaingen.Node, V, H *netsim.Node, phases []phase) string {
-	bpr := 100
-	if s.Batch > 0 && s.Batch < 100 {
-		bpr = int(s.Batch)
+	// the number of blocks per request is the implementation's choice (a constant capped by MaxSendBlocks), not
+	// something the property fixes: the model is parametric in it and the case carries what this run used — the
+	// largest Max of any block request the victim sent (the first request of a round of several asks for exactly
+	// that many; a round of one request asks for all its headers, which is at most that many)
+	bpr := 0
+	for _, e := range atk.l.Log() {
+		if e.kind == "bfh" && int(e.max) > bpr {
+			bpr = int(e.max)
+		}
+	}
+	if H != nil {
+		for _, c := range H.Rec.Log() {
+			if c.Kind == "bfh" && int(c.Max) > bpr {
+				bpr = int(c.Max)
+			}
+		}
+	}
+	if bpr == 0 {
+		bpr = 100
+		if s.Batch > 0 && s.Batch < 100 {
+			bpr = int(s.Batch)
+		}
 	}
 	ipB := netsim.IPFor(s.Slot, 1)
 	ipH := netsim.IPFor(s.Slot, 2)
